@@ -211,6 +211,11 @@ package builder
 //@ func ComputeNullables(rules map[string]*ast.Rule)
 //@   requires [wf] rules != nil && RulesWF(rules) && TreeWF()
 //@   modifies Flags
+// every rule of the table gets a nullable visit of its own (C07: the flags the first-graph reads are computed inside
+// every rule, also in one that is only referenced behind a non-nullable prefix and so never reached from another visit)
+//@   at "for _, rule := range rules {" ghost nVisits = 0
+//@   at "rule.NullableVisit(rules)" ghost nVisits = nVisits + 1
+//@   loop#1 invariant [every-rule-visited C07] nVisits == iter1
 //@   safety C13
 
 //@ func ComputeLeftRecursives(rules map[string]*ast.Rule) (have bool, err error)
